@@ -117,17 +117,25 @@ pub fn program_records(recs: &[Rec]) -> Vec<String> {
 /// inspection line and issues CONT. Returns the outcome, the host-call history and the
 /// number of boundaries seen.
 pub fn run_with_breaks(p: &FixedProg, breaks: &[usize], inspection: &str) -> (Outcome, Vec<Ev>, usize, u64) {
+    let lines: Vec<String> = p.lines.iter().map(|l| l.to_string()).collect();
+    let replies: Vec<String> = p.replies.iter().map(|l| l.to_string()).collect();
+    run_lines_with_breaks(&lines, &replies, breaks, inspection, 400)
+}
+
+/// The same for any program text; `max_boundaries` caps the run (the cap is part of the
+/// outcome, so interrupted and uninterrupted runs are cut at the same boundary count).
+pub fn run_lines_with_breaks(lines: &[String], replies: &[String], breaks: &[usize], inspection: &str, max_boundaries: usize) -> (Outcome, Vec<Ev>, usize, u64) {
     let mut s = Sess::new();
     let mut hist = vec![];
     let mut calls = 0u64;
-    for l in &p.lines {
+    for l in lines {
         let e = Ev::Line(l.to_string());
         let _ = s.apply(&e);
         hist.push(e);
     }
     s.recs.clear();
     s.it.randomize(7);
-    let mut replies = p.replies.iter();
+    let mut replies = replies.iter();
     let mut transcript: Vec<String> = vec![];
     let e = Ev::Line("RUN".into());
     let mut last = s.apply(&e);
@@ -152,7 +160,7 @@ pub fn run_with_breaks(p: &FixedProg, breaks: &[usize], inspection: &str) -> (Ou
         let st = s.state();
         if st == InterpreterState::Idle {
             // A STOP in the program: the host types CONT (bounded), anything else is the end.
-            if s.it.verif_snapshot().breakpoint.is_some() && boundary < 400 {
+            if s.it.verif_snapshot().breakpoint.is_some() && boundary < max_boundaries {
                 transcript.push("Stopped".into());
                 boundary += 1;
                 let e = Ev::Line("CONT".into());
@@ -163,7 +171,7 @@ pub fn run_with_breaks(p: &FixedProg, breaks: &[usize], inspection: &str) -> (Ou
             end = "ended".to_string();
             break;
         }
-        if st == InterpreterState::NewInterpreterRequested || boundary > 400 {
+        if st == InterpreterState::NewInterpreterRequested || boundary > max_boundaries {
             end = format!("{:?}", st);
             break;
         }
@@ -377,6 +385,88 @@ fn stop_placement_clause() -> (u64, Vec<Violation>) {
     (runs, out)
 }
 
+/// Grammar pass: every statement sequence over the core and INPUT menus, every single turn
+/// boundary (while running or awaiting input), with a bare CONT and with a failing inspection
+/// before it; the oracle is the uninterrupted run of the same program (cut at the same cap).
+fn grammar_pass(thorough: bool) -> (u64, u64, u64, Vec<Violation>) {
+    use crate::progs::*;
+    use crate::refmodel::render_program;
+    let core = core_menu();
+    let inm = input_menu();
+    let brm = branch_menu();
+    let n = if thorough { 4 } else { 3 };
+    let cap = 30usize;
+    let mut programs = 0u64;
+    let mut schedules = 0u64;
+    let mut calls = 0u64;
+    let mut viol = vec![];
+    for (menu, replies) in [(&core, vec![]), (&inm, crate::c08::script(3, 8)), (&inm, crate::c08::script(1, 8)), (&brm, vec![])] {
+        let base = menu.len() as u64;
+        for len in 1..=n {
+            let joins = join_patterns(len, len <= 2);
+            let res: Vec<(u64, u64, u64, Vec<Violation>)> = (0..pow(base, len))
+                .into_par_iter()
+                .map(|i| {
+                    let idxs = decode_seq(i, base, len);
+                    let seq: Vec<T> = idxs.iter().map(|k| menu[*k].1.clone()).collect();
+                    let (mut p, mut sch, mut c) = (0u64, 0u64, 0u64);
+                    let mut out = vec![];
+                    for &j in &joins {
+                        let prog = layout(&seq, j);
+                        let lines = render_program(&prog);
+                        let (base_o, _, t, c0) = run_lines_with_breaks(&lines, &replies, &[], "", cap + 12);
+                        p += 1;
+                        c += c0;
+                        if base_o.end.starts_with("panic") {
+                            continue; // C01's business
+                        }
+                        // A run cut by the boundary cap (a loop) has no final outcome: the
+                        // interrupted run is then compared on the common prefix only.
+                        let cut = |o: &Outcome| o.end == "Running" || o.end == "AwaitingInput";
+                        let base_cut = cut(&base_o) || t + 4 > cap + 12;
+                        'b: for b in 1..=t.min(cap) {
+                            for insp in ["", "PRINT 1/0"] {
+                                let (o, hist, _, c1) = run_lines_with_breaks(&lines, &replies, &[b], insp, cap + 12);
+                                sch += 1;
+                                c += c1;
+                                let same = if base_cut || cut(&o) {
+                                    let n = o.transcript.len().min(base_o.transcript.len());
+                                    o.transcript[..n] == base_o.transcript[..n] && (base_cut || n + 6 >= base_o.transcript.len())
+                                } else {
+                                    o == base_o
+                                };
+                                if !same {
+                                    let i = o.transcript.iter().zip(&base_o.transcript).position(|(a, b)| a != b);
+                                    out.push(Violation {
+                                        signature: format!("not transparent: grammar program / inspection {:?} / {}", insp, match i {
+                                            Some(i) => format!("record {} vs {}", o.transcript[i], base_o.transcript[i]),
+                                            None if o.end != base_o.end || o.transcript.len() != base_o.transcript.len() => format!("end {} vs {}", o.end, base_o.end),
+                                            None => "final interpreter state differs".to_string(),
+                                        }),
+                                        detail: format!("{:?} with replies {:?}, break at boundary {} with inspection {:?}: transcript {:?} end {:?}; uninterrupted: {:?} end {:?}", lines, replies, b, insp, o.transcript, o.end, base_o.transcript, base_o.end),
+                                        case: case_history(&hist, false, false),
+                                    });
+                                    break 'b;
+                                }
+                            }
+                        }
+                    }
+                    (p, sch, c, out)
+                })
+                .collect();
+            for (p, sch, c, v) in res {
+                programs += p;
+                schedules += sch;
+                calls += c;
+                if viol.len() < 500 {
+                    viol.extend(v);
+                }
+            }
+        }
+    }
+    (programs, schedules, calls, viol)
+}
+
 pub fn run(thorough: bool) -> Report {
     let mut rep = Report::new("C07", "model_checking");
     let k = if thorough { 3 } else { 2 };
@@ -449,6 +539,19 @@ pub fn run(thorough: bool) -> Report {
             rep.violations.push(v);
         }
     }
+    let (gp_programs, gp_schedules, gp_calls, gp_viol) = grammar_pass(thorough);
+    calls += gp_calls;
+    {
+        let mut v = gp_viol;
+        v.sort_by_key(|x| x.case["events"].as_array().map(|a| a.len()).unwrap_or(0));
+        for x in v {
+            rep.violating_cases += 1;
+            let key = format!("grammar / {}", x.signature.split(" / ").last().unwrap_or(""));
+            if seen.insert(key) && rep.violations.len() < 40 {
+                rep.violations.push(x);
+            }
+        }
+    }
     let mut stop_runs = 0u64;
     {
         let (r, v) = stop_placement_clause();
@@ -470,6 +573,8 @@ pub fn run(thorough: bool) -> Report {
         "traces_validated_against_impl": jobs.len() as u64 * INSPECTIONS.len() as u64,
         "fixed_programs": per_prog,
         "max_breaks_per_schedule": k,
+        "grammar_pass_programs": gp_programs,
+        "grammar_pass_single_break_schedules": gp_schedules,
         "schedules_by_number_of_breaks": schedules_by_size,
         "inspections": INSPECTIONS,
         "stop_and_assignment_runs": stop_runs,
